@@ -315,6 +315,13 @@ class DependencyTransformation(Transformation):
         calls = {replace_last(call, f'{self.suffix.lower()}', '') for call in calls}
         call_targets = {call for call in calls if call in as_tuple(targets)}
 
+        def rename_symbol(s):
+            # For symbols renamed upon import (``local => remote``) the remote name is renamed, too
+            new_type = s.type
+            if s.type.use_name:
+                new_type = s.type.clone(use_name=f'{s.type.use_name}{self.suffix}')
+            return s.clone(name=f'{s.name}{self.suffix}', type=new_type)
+
         # We go through the IR, as C-imports can be attributed to the body
         import_map = {}
         for im in imports:
@@ -333,14 +340,14 @@ class DependencyTransformation(Transformation):
                         # Mixed import: We need to split the import, retaining the original name for
                         # non-target imports and using the new name for target imports
                         import_map[im] = tuple(
-                            im.clone(module=new_module_name, symbols=(s.clone(name=f'{s.name}{self.suffix}'),))
+                            im.clone(module=new_module_name, symbols=(rename_symbol(s),))
                             if s in call_targets else im.clone(symbols=(s,))
                             for s in im.symbols
                         )
                     else:
                         # Append suffix to all symbols and in-place update the import
                         symbols = tuple(
-                            s.clone(name=f'{s.name}{self.suffix}')
+                            rename_symbol(s)
                             if s in call_targets else s for s in im.symbols
                         )
                         im._update(module=new_module_name, symbols=symbols)
